@@ -94,6 +94,10 @@ func (c18) Gen(seed uint64, idx int, tier string) *Scenario {
 	default:
 		sc.SetStr("mode", "plain")
 	}
+	if class == "ok" && (r.Chance(1, 25) || sc.Str("mode") == "bdump" && r.Chance(1, 6)) {
+		// next to nothing: an empty file, blanks, a comment, line feeds only
+		sc.Src = []byte(prng.Pick(r, []string{"", " ", "\n", "\n\n", "# c", "# c\n", ";"}))
+	}
 	sc.SetInt("aseed", r.Intn(1<<30))
 	// what standard input is, when it is used: a pipe, a regular file, a regular file whose
 	// offset the parent has already advanced past a header, a socket
